@@ -1284,7 +1284,7 @@ func (r *Resolver) addSubscription(triggerID uint64, add *addSubscription) error
 			return
 		}
 
-		r.markTriggerInitialized(triggerID)
+		r.markTriggerInitialized(trig)
 
 		if r.options.Debug {
 			fmt.Printf("resolver:trigger:started:%d\n", triggerID)
@@ -1301,9 +1301,14 @@ func (r *Resolver) getTrigger(id uint64) (*trigger, bool) {
 }
 
 // markTriggerInitialized marks a trigger as initialized and reports it.
-func (r *Resolver) markTriggerInitialized(triggerID uint64) {
-	trig, ok := r.getTrigger(triggerID)
-	if !ok {
+// It is a no-op unless trig is still the registered trigger: while Source.Start was running the trigger may have
+// been removed (last subscriber left) and another one created under the same id. The flag is set and reported
+// under r.mu so that a concurrent removal either sees it (and reports TriggerCountDec) or happens first.
+func (r *Resolver) markTriggerInitialized(trig *trigger) {
+	triggerID := trig.id
+	r.mu.Lock()
+	defer r.mu.Unlock()
+	if cur, ok := r.triggers[triggerID]; !ok || cur != trig {
 		verifPoint("trig.init", triggerID, 0)
 		return
 	}
